@@ -2,7 +2,7 @@
    Print Assumptions is run on every Theorem by bin/check. *)
 From Coq Require Import List NArith ZArith Bool Lia.
 From V Require Import C12.Model C13.Model C13.Proofs C13.Proofs_Votes C13.Proofs_Replay C13.Proofs_Commit C13.Proofs_Resume
-  C13.Proofs_Obs C13.Proofs_ObsStep C13.Proofs_Crash C13.Proofs_Final C13.Proofs_State C13.Proofs_Tail.
+  C13.Proofs_Obs C13.Proofs_ObsStep C13.Proofs_Crash C13.Proofs_Inv C13.Proofs_Final C13.Proofs_State C13.Proofs_Tail.
 Import ListNotations.
 Open Scope N_scope.
 
@@ -87,12 +87,13 @@ Proof. exact no_conflict_lemma. Qed.
      value_deterministic E   Value() does not depend on how often it was asked (C13_proposer_refuted: needed);
      quorum_positive E       the quorum of every height is > 0 (total voting power >= 1);
      good_run E h0 ins1      the killed life is "plain" (executable predicate, Model.good_step): it starts on an
-                             empty log at h0 >= 1; no message of a height above the current one is delivered;
+                             empty log at h0 >= 1; messages of ANY height (also future heights: LoadAllEntries
+                             then re-orders the log) but none takes the unlogged TriggerSync path;
                              ProcessStart does not itself commit; a stale timeout finds no rule pending; a
                              rejected message leaves its counter cell unchanged;
      life_disc (2nd life)    no timeout reaches a state machine whose height is not started (C12's discipline).
-   Not covered by this theorem (covered by the differential only): histories with messages for future heights
-   (the log is then re-ordered by LoadAllEntries; needs a commutation argument). *)
+   Messages for future heights are covered: a future-height message is a pure update of its counter cell and
+   commutes with every call of the current height up to obs_eq (Proofs_Fut / Proofs_Upd / Proofs_Core). *)
 Theorem C13_no_conflict : forall E h0 ins1 k n2 ins2,
   value_deterministic E -> quorum_positive E -> good_run E h0 ins1 = true ->
   (let '(pre, post) := crash_restart E h0 ins1 k n2 ins2 in
@@ -283,3 +284,23 @@ Example C13_future_quorum_precommit_lost :
    pc_count (d_sm (fst (lifetime ex_env3 1 [] 0 fut_ins))) = 3 /\
    pc_count (d_sm (fst (recover ex_env3 (resume_height 1 (firstn k effs)) (crash_at k effs []) 0))) = 2).
 Proof. vm_compute. repeat split; reflexivity. Qed.
+
+(* a plain run WITH messages for future heights (logged at height 1 for heights 2 and 3, replayed after the
+   height-1 entries): every kill point satisfies the conclusions of the theorems *)
+Definition fut_ok_ins : list input :=
+  [IPrevote (mkV 2 0 1 (Some 9)); IPrevote (mkV 1 0 1 (Some 7)); IPrecommit (mkV 3 1 2 None);
+   IPrevote (mkV 1 0 2 (Some 7)); IProposal (mkP 2 0 1 (-1) 9); IPrevote (mkV 1 0 3 (Some 7));
+   IPrecommit (mkV 1 0 1 (Some 7)); IPrecommit (mkV 1 0 2 (Some 7)); IPrecommit (mkV 1 0 3 (Some 7));
+   IPrevote (mkV 2 0 2 (Some 9))].
+Example ex_plain_run_with_future_messages :
+  good_run ex_env_fixed 1 fut_ok_ins = true /\
+  forallb (fun k =>
+    let effs := flat (snd (lifetime ex_env_fixed 1 [] 0 fut_ok_ins)) in
+    let pre := firstn k effs in
+    let h1 := resume_height 1 pre in
+    let D := crash_at k effs [] in
+    let post := lifetime ex_env_fixed h1 D 5 [] in
+    life_disc ex_env_fixed h1 D 5 [] && no_conflict pre (flat (snd post)) &&
+    replay_covers (at_or_above h1 pre) (flat (snd post)))
+    (seq 0 (S (length (flat (snd (lifetime ex_env_fixed 1 [] 0 fut_ok_ins)))))) = true.
+Proof. vm_compute. split; reflexivity. Qed.
